@@ -186,6 +186,20 @@ def tool_phase(ev, rep, work, tier):
         for opt in (["-e"], []):
             jobs.append(("gensquashfs", many.dir, ["-q", "-f", "-c", comp, "-b", "4096"] + opt + ["-F", many.packfile()], None,
                          "s_many/%s%s" % (comp, "".join(opt))))
+    # options that meet: export table + xattr tables (map file) + sort file (priorities, flags) + compressor options, one block size
+    # that makes every file multi-block; the -j / -Q / environment variants below apply to the combination
+    combo = gen.Scenario(work, "s_combo")
+    r4 = random.Random(SEED + 13)
+    for i in range(14):
+        combo.add_file("/c%02d" % i, gen.content(r4, r4.choice(["text", "mixed", "random"]), r4.choice([300, 9000, 20000, 70000])))
+        if i % 3 == 0:
+            combo.set_xattr("c%02d" % i, "user.k", b"v%d" % (i % 2))
+    combo.add_file("/cdup", combo.files["c03"])
+    sortf = combo.dir + "/sort.txt"
+    open(sortf, "w").write("-5 c07\n3 [dont_compress] c01\n3 [dont_fragment,nosparse] c0[45]\n-5 [dont_deduplicate] cdup\n")
+    for comp, xo in (("gzip", "level=5,huffman,default"), ("zstd", "level=9")):
+        jobs.append(("gensquashfs", combo.dir, ["-q", "-f", "-c", comp, "-X", xo, "-b", "8192", "-e", "-T", "-A", combo.xattrfile(), "-S", sortf, "-F", combo.packfile()], None,
+                     "s_combo/%s-e-T-A-S-X" % comp))
     for name, data in tars:
         for comp in comps[:2]:
             d = work + "/" + name
